@@ -600,8 +600,9 @@ class EdgeQLSourceGenerator(codegen.SourceGenerator):
 
     def visit_Shape(self, node: qlast.Shape) -> None:
         if node.expr is not None:
-            if isinstance(node.expr, qlast.TypeCast):
-                # `(<T>x) { y }` is not `<T>x { y }`
+            if isinstance(node.expr, (qlast.TypeCast, qlast.Constant)):
+                # `(<T>x) { y }` is not `<T>x { y }` (nor `(-1) { y }`
+                # `-1 { y }`)
                 self.write('(')
                 self.visit(node.expr)
                 self.write(')')
